@@ -670,6 +670,7 @@ func k7() *sched.Scenario {
 }
 
 func TestC12Sched(t *testing.T) { run(t, "C12", k1(), k1b(), k6(), k7(), k12()) }
+
 // k8: two goroutines close the relayed socket at the same time (the library
 // itself is the second closer when a ChannelBind is refused): both calls
 // return, exactly one of them without error, nothing panics.
@@ -955,5 +956,7 @@ func k11() *sched.Scenario {
 }
 
 func TestC13Sched(t *testing.T) { run(t, "C13", k2(), k3(), k5(), k8(), k10(), k11()) }
-func TestC18Client(t *testing.T) { run(t, "C18", k1(), k1b(), k2(), k3(), k5(), k6(), k7(), k8(), k9(), k10(), k12(), k13()) }
+func TestC18Client(t *testing.T) {
+	run(t, "C18", k1(), k1b(), k2(), k3(), k5(), k6(), k7(), k8(), k9(), k10(), k12(), k13())
+}
 func TestC09ClientSched(t *testing.T) { run(t, "C09", k13()) }
